@@ -19,7 +19,7 @@ ID = "C20"
 PROPS = ["props/C20.v"]
 EXTRACTS = ["C20"]
 THEOREMS = [
-    "C20_supported_eligible_partial", "C20_compressed_abi_refuted", "C20_legacy_alias_arch_refuted",
+    "C20_supported_eligible_partial", "C20_compressed_abi_eligible", "C20_legacy_alias_arch_refuted",
     "C20_foreign_python_rejected", "C20_foreign_python_tag_rejected", "C20_foreign_abi_rejected",
     "C20_other_abi_generation_rejected", "C20_foreign_platform_rejected", "C20_other_os_rejected",
     "C20_other_arch_rejected", "C20_newer_manylinux_rejected", "C20_foreign_rejected", "C20_legacy_newer_rejected",
@@ -34,7 +34,7 @@ RULE = ("interpreter configurations (CPython 2.6-3.20, both old ABI flags, glibc
         "req_compile.repos.repository by patching INTERPRETER_TAG, PY_VERSION_NUM, ABI_TAGS, PLATFORM_TAGS, "
         "get_glibc_version, get_system_arch and sys.version_info; wheel/sdist file names are generated from the "
         "configuration's own supported tags (packaging's generators), from foreign majors/implementations/ABI "
-        "generations/platforms/newer manylinux, compressed tag sets and ~15% malformed tags; "
+        "generations/platforms/newer manylinux, compressed tag sets (python, ABI and platform fields) and ~15% malformed tags; "
         "filename_to_candidate -> check_usability / tag_score / sort_candidates (and _impl_major_minor, "
         "_py_version_score, manylinux_tag_is_compatible_with_this_system, utils.get_glibc_version with a fake libc "
         "symbol, int()) are compared with the extracted "
@@ -46,7 +46,8 @@ RULE = ("interpreter configurations (CPython 2.6-3.20, both old ABI flags, glibc
 TRUSTED_BASE = [
     "T1 harness/tr_c20.py: LEGACY_ALIASES, INTERPRETER_TAGS, MANYLINUX_REGEX, DistributionType values, tuple order of "
     "Candidate.sortkey and Candidate.tag_score, sorted(... reverse=True), impl_score_defaults + shifts, order/guards of "
-    "check_usability -> gen/ConstsC20.v (obligations in proofs/TagsC20P.v section GenOK)",
+    "check_usability, single-string vs tag-set shape of _check_abi_compatibility and of tag_score's abi_score -> gen/ConstsC20.v "
+    "(obligations in proofs/TagsC20P.v section GenOK)",
     "T2 harness/c20.py: generators, configuration patching (as tests/conftest.py mock_py_version, plus the constants it "
     "leaves alone), canonicalisation (exception class names, candidate identity by index)",
     "packaging 26.3 tags.sys_tags / cpython_tags / compatible_tags / _manylinux.platform_tags are the reference for the "
@@ -292,13 +293,15 @@ def gen_py_tag(rng, cfg) -> str:
 def gen_abi_tag(rng, cfg) -> str:
     M, m = cfg["major"], cfg["minor"]
     r = rng.random()
-    if r < 0.55:
+    if r < 0.50:
         return rng.choice(["none", "none", cfg["abi_tags"][0], cfg["abi_tags"][-1] if cfg["abi_tags"] else "none", "abi3"])
-    if r < 0.80:
+    if r < 0.72:
         return rng.choice(["cp%d%d" % (M, m + 1), "cp%d%d" % (M, max(m - 1, 0)), "cp%d%dm" % (M, m), "cp%d%dmu" % (M, m),
                            "cp%d%d" % (5 - M, m), "abi%d" % (5 - M), "abi4", "pypy39_pp73", "cp%d%dd" % (M, m), "cp%d%dt" % (M, m)])
-    if r < 0.92:   # compressed ABI sets
-        return rng.choice(["abi3.cp%d%d" % (M, m), "cp%d%d.abi3" % (M, m), "none.abi3", "cp%d%d.cp%d%d" % (M, m, M, m + 1)])
+    if r < 0.92:   # compressed ABI sets (PEP 425): supported + foreign, only foreign, with "none", empty elements
+        pool = ["abi3", "none", cfg["abi_tags"][0], cfg["abi_tags"][-1] if cfg["abi_tags"] else "none", "cp%d%d" % (M, m), "cp%d%d" % (M, m + 1),
+                "cp%d%d" % (M, max(m - 1, 0)), "cp%d%dm" % (M, m), "abi%d" % (5 - M), "abi4", "pypy39_pp73", "", "NONE", "cp%d%dd" % (M, m)]
+        return ".".join(rng.choice(pool) for _ in range(rng.choice([2, 2, 2, 3, 4])))
     return rng.choice(["None", "NONE", "", "ABI3", "abi3 ", "any", "cp", "."])
 
 
@@ -702,10 +705,8 @@ def witness_violates(R, w: Dict[str, Any]) -> bool:
 
 
 def _known_defect(cfg, pyf: str, abif: str, platf: str) -> bool:
-    """inputs listed in known_findings.d/C20.json: compressed ABI field; legacy alias name of a machine the alias
-    table does not list"""
-    if "." in abif:
-        return True
+    """inputs listed as `known` in known_findings.d/C20.json: legacy alias name of a machine the alias table does
+    not list (the compressed ABI field was one until /repo c54d5f0; it is part of the guarded domain now)"""
     for p in platf.split("."):
         for leg in ("manylinux1_", "manylinux2010_", "manylinux2014_"):
             if p.startswith(leg) and p[len(leg):] not in ("x86_64", "i686"):
@@ -750,7 +751,7 @@ def _spec_score(cfg, pyf: str, abif: str, platf: str, fn: str):
             plat = max(plat, (len(cfg["platform_tags"]) - cfg["platform_tags"].index(p.lower())) * 100)
     if plat > 0:
         plat += len(plats)
-    abi = cfg["abi_tags"].index(abif) if abif in cfg["abi_tags"] else 0
+    abi = max([cfg["abi_tags"].index(a) for a in abif.split(".") if a in cfg["abi_tags"]] or [0])
     return (best, plat, abi, 0 if " " in fn else 1)
 
 
@@ -776,7 +777,7 @@ def _gen_foreign(rng, cfg) -> Tuple[str, str]:
     if k == "abi":
         cand = ["cp%d%d" % (M, m + 1), "cp%d%d" % (M, m + 2), "cp%d%d" % (5 - M, m), "abi%d" % (5 - M), "pypy39_pp73"] + (["cp%d%d" % (M, m - 1)] if m else [])
         cand = [a for a in cand if a not in cfg["abi_tags"]]
-        return k, "x-1.0-{}-{}-{}.whl".format(okpy, rng.choice(cand), okplat)
+        return k, "x-1.0-{}-{}-{}.whl".format(okpy, ".".join(rng.sample(cand, rng.choice([1, 1, 2]))), okplat)
     if k == "os":
         plats = ".".join(rng.sample(["win_amd64", "win32", "macosx_10_9_x86_64", "macosx_11_0_arm64", "musllinux_1_1_" + arch], rng.choice([1, 2])))
         return k, "x-1.0-{}-none-{}.whl".format(okpy, plats)
@@ -840,9 +841,15 @@ def oracle_cases(rng, R, n: int):
             py, abi, plat = rng.choice(tags)
             pyf = ".".join(rng.sample([py, gen_py_tag(rng, cfg)], 2)) if rng.random() < 0.4 else py
             platf = ".".join(rng.sample([plat, gen_plat_tag(rng, cfg)], 2)) if rng.random() < 0.4 else plat
-            if any(ch in pyf + platf for ch in "-/\\\n ") or _known_defect(cfg, pyf, abi, platf):
+            abif = abi
+            if rng.random() < 0.35:   # PEP 425 compressed ABI set containing the supported ABI tag
+                other = rng.choice(["abi3", "none", "cp%d%d" % (cfg["major"], cfg["minor"] + 1), "cp%d%d" % (cfg["major"], cfg["minor"]),
+                                    "cp%d%dm" % (cfg["major"], cfg["minor"]), "abi4", "pypy39_pp73"])
+                if other != abi:
+                    abif = ".".join(rng.sample([abi, other], 2))
+            if any(ch in pyf + platf for ch in "-/\\\n ") or _known_defect(cfg, pyf, abif, platf):
                 continue
-            yield {"kind": "supported", "cfg": cfg, "tag": [py, abi, plat], "file": "x-1.0-{}-{}-{}.whl".format(pyf, abi, platf)}
+            yield {"kind": "supported", "cfg": cfg, "tag": [py, abi, plat], "file": "x-1.0-{}-{}-{}.whl".format(pyf, abif, platf)}
         elif r < 0.75:
             why, fn = _gen_foreign(rng, cfg)
             yield {"kind": "foreign", "cfg": cfg, "why": why, "file": fn}
@@ -956,7 +963,7 @@ def _suspects_from_wheel(R, cfg, fn, pyf, abif, platf) -> List[Dict[str, Any]]:
         return out
     for raw in _coherent_raws(R, cfg):
         sup = set(packaging_tags(raw))
-        hit = [(p, abif, q) for p in pyf.split(".") for q in platf.split(".") if (p, abif, q) in sup]
+        hit = [(p, a, q) for p in pyf.split(".") for a in abif.split(".") for q in platf.split(".") if (p, a, q) in sup]
         if hit:
             out.append({"kind": "supported", "cfg": cfg, "tag": list(hit[0]), "file": fn})
         else:
@@ -967,7 +974,7 @@ def _suspects_from_wheel(R, cfg, fn, pyf, abif, platf) -> List[Dict[str, Any]]:
                 out.append({"kind": "foreign", "cfg": cfg, "why": "major", "file": fn})
             if simple and all(p[:2] not in ("py", cfg["impl"]) for p in pys):
                 out.append({"kind": "foreign", "cfg": cfg, "why": "impl", "file": fn})
-            if abif != "none" and abif not in ("abi%d" % M, cfg["abi_tags"][-1]) and abif[:2] in ("cp", "ab", "py", "pp"):
+            if all(a != "none" and a not in ("abi%d" % M, cfg["abi_tags"][-1]) and a[:2] in ("cp", "ab", "py", "pp") for a in abif.split(".")):
                 out.append({"kind": "foreign", "cfg": cfg, "why": "abi", "file": fn})
             plats = platf.split(".")
             if all(p.startswith(("win", "macosx_", "musllinux_")) for p in plats):
@@ -1029,9 +1036,9 @@ def replay(ctx: Ctx, payload: Dict[str, Any]) -> bool:
 
 LEVEL_TEXT = ("Theorems proved in Coq over a Gallina model of repository.py's tag predicates, manylinux policy, tag_score, "
               "sort key, sort_candidates and check_usability: every tag of the PEP 425/600 supported-tag list of every CPython "
-              "2.x/3.x minor, glibc 2.x version and machine is eligible whenever the wheel's tag set contains it (guard: "
-              "single ABI tag, legacy alias names only for x86_64/i686 - both exclusions refuted with witnesses replayed on "
-              "the code); wheels built only for another major, implementation, ABI generation, operating system, machine or a "
+              "2.x/3.x minor, glibc 2.x version and machine is eligible whenever the wheel's compressed tag sets contain it "
+              "(guard: legacy alias names only for x86_64/i686 - refuted with a witness replayed on the code; the former "
+              "compressed-ABI exclusion was repaired in /repo c54d5f0 and is now a positive theorem); wheels built only for another major, implementation, ABI generation, operating system, machine or a "
               "newer manylinux are rejected for every configuration; a wheel's key is above the same version's sdist and it is "
               "sorted before it; the stable descending sort is a permutation and independent of listing order when keys are "
               "distinct (tie witness py3 vs py2.py3 refuted).  The model is tied to /repo by generated constants (T1) and "
